@@ -191,17 +191,49 @@ theorem bvXnor_denotes (I : Interp) {a b t : Term} (h : Mk.BVXnor a b = .ok t) {
 
 /-! ## constants -/
 
-theorem bv_ok {n : Int} {w : Nat} (h0 : 0 ≤ n) (h1 : n < 2 ^ w) : Mk.BV n w = .ok (Term.bvc n.toNat w) := by
+theorem bv_ok {n : Int} {w : Nat} (hw : 0 < w) (h0 : 0 ≤ n) (h1 : n < 2 ^ w) :
+    Mk.BV n w = .ok (Term.bvc n.toNat w) := by
   unfold Mk.BV
-  rw [if_neg (by omega), if_neg (by omega)]
+  rw [if_neg (by omega), if_neg (by omega), if_neg (by omega)]
 
-theorem bv_error_iff (n : Int) (w : Nat) : Mk.BV n w = .error .value ↔ (n < 0 ∨ n ≥ 2 ^ w) := by
+/-- any Python integer outside `0 … 2^w - 1` is refused -/
+theorem bv_error_of {n : Int} {w : Nat} (h : n < 0 ∨ n ≥ 2 ^ w) : Mk.BV n w = .error .value := by
   unfold Mk.BV
-  by_cases h0 : n < 0
-  · simp [h0]
-  · by_cases h1 : n ≥ 2 ^ w
-    · simp [h0, h1]
-    · simp [h0, h1]
+  by_cases hw : w = 0
+  · simp [hw]
+  · by_cases h0 : n < 0
+    · simp [hw, h0]
+    · have h1 : n ≥ 2 ^ w := by rcases h with h | h; exact absurd h h0; exact h
+      simp [hw, h0, h1]
+
+theorem bv_error_iff (n : Int) (w : Nat) : Mk.BV n w = .error .value ↔ (w = 0 ∨ n < 0 ∨ n ≥ 2 ^ w) := by
+  constructor
+  · intro h
+    by_cases hw : w = 0
+    · exact Or.inl hw
+    · by_cases h0 : n < 0
+      · exact Or.inr (Or.inl h0)
+      · by_cases h1 : n ≥ 2 ^ w
+        · exact Or.inr (Or.inr h1)
+        · rw [bv_ok (by omega) (by omega) (by omega)] at h; cases h
+  · rintro (h | h)
+    · unfold Mk.BV; simp [h]
+    · exact bv_error_of h
+
+/-- `BV n w` succeeds exactly on a positive width and a value in range -/
+theorem bv_ok_inv {n : Int} {w : Nat} {t : Term} (h : Mk.BV n w = .ok t) :
+    0 < w ∧ 0 ≤ n ∧ n < 2 ^ w ∧ t = Term.bvc n.toNat w := by
+  have hw : 0 < w := by
+    rcases Nat.eq_zero_or_pos w with h0 | h0
+    · rw [(bv_error_iff n w).mpr (Or.inl h0)] at h; cases h
+    · exact h0
+  have h0 : ¬ n < 0 := by
+    intro hk; rw [bv_error_of (Or.inl hk)] at h; cases h
+  have h1 : ¬ n ≥ 2 ^ w := by
+    intro hk; rw [bv_error_of (Or.inr hk)] at h; cases h
+  rw [bv_ok hw (by omega) (by omega)] at h
+  cases h
+  exact ⟨hw, by omega, by omega, rfl⟩
 
 theorem eval_bvc (I : Interp) (v w : Nat) : eval I (Term.bvc v w) = .bv w v := by
   simp [Term.bvc, eval_op, evalOp]
